@@ -32,3 +32,19 @@ package signaling_rpc
 // boundTo(m, dest): the signature of m also covers the peer it was submitted for. Nothing in the
 // message format provides this (see the known finding for C19).
 //@ spec fun boundTo(m *SessionMsg, dest string) bool
+
+// ---- C40: validators of decoded messages are total ----
+// A decoded oneof field holds nil or a non-nil wrapper (generated UnmarshalVT allocates the wrapper
+// whenever it sets the field): stated as the precondition under which Validate is total.
+//@ func (*SessionRequest).Validate
+//@   nilable-receiver
+//@   requires r != nil ==> (istype(r.Body, ptr(SessionRequest_Init)) ==> unboxed(r.Body, ptr(SessionRequest_Init)) != nil) && (istype(r.Body, ptr(SessionRequest_SendMsg)) ==> unboxed(r.Body, ptr(SessionRequest_SendMsg)) != nil)
+//@ func (*SessionResponse).Validate
+//@   nilable-receiver
+//@   requires r != nil ==> (istype(r.Body, ptr(SessionResponse_RecvMsg)) ==> unboxed(r.Body, ptr(SessionResponse_RecvMsg)) != nil)
+//@ func (*SessionMsg).Validate
+//@   nilable-receiver
+//@ func (*SessionInit).Validate
+//@   nilable-receiver
+//@ func (*SessionInit).ParsePeerID
+//@   nilable-receiver
